@@ -116,7 +116,7 @@ def judge_modes(acc, layout, si, r, text, seen):
         else:
             acc.guard('colon_mode_same')
     # (c) all colons removed
-    nc = text.replace(':', '')
+    nc = text.replace(' :', '').replace(':', '')
     if nc in seen:
         return
     seen.add(nc)
@@ -224,7 +224,9 @@ def run_unit(unit, tier):
     seen = set()
     for level, r in gen.renderings(MAXDEV[tier]):
         if layout in ('TRS_desc', 'S_desc_TR') and r.get('conn'):
-            continue
+            continue    # the desc-section connector does not occur in section-first layouts
+        if layout not in ('TRS_desc', 'S_desc_TR') and r.get('colon'):
+            continue    # ... and the colon does not occur in description-first layouts
         acc.transitions += 1
         res = gen.render(layout, gen.STRUCTS[si], r)
         if res is None:
